@@ -796,6 +796,8 @@ pub enum OneOutcome {
     Pass,
     Fail(Value),
     Died(String, u32),
+    /// stage at which the case was when the watchdog fired (kept for debugging output)
+    #[allow(dead_code)]
     Hang(u32),
     Infra(String),
 }
